@@ -15,7 +15,9 @@ RULE = ("(1) pairs of Magnitudes from a value grid (either sign, arrays, zero wh
         "absolute or relative errors (1%-30%), a plain number on either side, under + - * / neg and ** (n/d, d<=6, negative "
         "and fractional); (2) quantities with errors converted to a same-dimension unit expression drawn from all linear "
         "table units (every dimension class), to the reciprocal dimension, number->rad and to an unrelated unit; (3) the C06 "
-        "operation generator with errors on both operands. non-trivial = at least one operand carries an error and (a negative "
+        "operation generator with errors on both operands, including a op a with the SAME object on both sides (also on "
+        "Magnitude level) and constructors whose units cancel with a factor != 1; judged per clause on the error in base "
+        "dimensions and by 'relative uncertainty = that of the same operation on the bare magnitudes'. non-trivial = at least one operand carries an error and (a negative "
         "value/factor/exponent, an array, or different units) ; distinct = canonical JSON of the input")
 ASSUMPTIONS = [
     "operand errors are non-negative (abse >= 0, rele >= 0) as the property presupposes; magnitudes are floats or float "
@@ -46,6 +48,8 @@ def check_rule(ctx, name, case, e_imp, spec, what):
         if any(x < 0 for x in es):
             return viol("negative", "absolute error %s is negative" % (e_imp,))
     rule = spec.get("rule")
+    if not U.finite(spec.get("bound")):
+        return False
     if rule == "exact":
         if e_imp is not None:
             return viol("exact", "exact operands gave an error %s" % (e_imp,))
@@ -103,6 +107,15 @@ def gen_mag_case(rng):
     return {"op": "pow", "l": m, "p": [n, d], "float": frac or rng.random() < 0.5}
 
 
+def gen_same_case(rng):
+    """a op a : the SAME Magnitude object on both sides"""
+    op = rng.choice(["add", "sub", "mul", "mul", "div"])
+    m = gen_mag(rng, positive=rng.random() < 0.6, nonzero=(op == "div"), err_p=0.9)
+    if op == "div" and isinstance(m["v"], list):
+        m["v"] = [x if x != 0 else 2.0 for x in m["v"]]
+    return {"op": op, "l": m, "same": True}
+
+
 def mk_mag(spec):
     from scinumtools.units import Magnitude
     if "num" in spec:
@@ -134,15 +147,21 @@ MAG_CORPUS = [
     {"op": "div", "l": {"num": -2.0}, "r": {"v": [-2.0, 3.0], "rele": 10.0}},
     {"op": "add", "l": {"v": 1.0}, "r": {"v": 2.0}},
     {"op": "neg", "l": {"v": [1.0, -2.0], "abse": 0.5}},
+    {"op": "mul", "l": {"v": 12.0, "abse": 0.2}, "same": True},              # a*a : product rule, not the ** rule
+    {"op": "mul", "l": {"v": [12.0, 3.0], "abse": 0.2}, "same": True},
+    {"op": "div", "l": {"v": 4.0, "abse": 0.1}, "same": True},
+    {"op": "sub", "l": {"v": 4.0, "abse": 0.1}, "same": True},
+    {"op": "add", "l": {"v": -4.0, "rele": 5.0}, "same": True},
 ]
 
 
 def mag_stream(ctx, count):
-    cases = [json.loads(json.dumps(c)) for c in MAG_CORPUS] + [gen_mag_case(ctx.rng) for _ in range(count)]
+    cases = [json.loads(json.dumps(c)) for c in MAG_CORPUS] + \
+        [gen_same_case(ctx.rng) if ctx.rng.random() < 0.08 else gen_mag_case(ctx.rng) for _ in range(count)]
     reqs, imps = [], []
     for c in cases:
         l = mk_mag(c["l"])
-        r = mk_mag(c["r"]) if "r" in c else None
+        r = l if c.get("same") else (mk_mag(c["r"]) if "r" in c else None)
         req = {"k": "mag", "op": c["op"], "l": mag_state(l)}
         if r is not None:
             req["r"] = mag_state(r)
@@ -205,6 +224,8 @@ def mag_stream(ctx, count):
                  (neg or isinstance(imp["v"], list)), {"magnitude_case": c, "error": imp["e"]})
         if le is not None or re_ is not None:
             ctx.count("mag.with-error")
+        if c.get("same"):
+            ctx.count("mag.same-object")
         mod, spec = ans["ok"]["model"], ans["ok"]["spec"]
         ctx.count("mag.rule." + spec.get("rule", "?"))
         check_rule(ctx, "Magnitude." + op, c, imp["e"], spec, what)
@@ -320,9 +341,28 @@ def rel(e, v):
 
 
 # ---------------------------------------------------------------- stream 3: quantity operations with errors
+QTY_CORPUS = [
+    # sums / differences in different units of one dimension, uncertain right operand
+    {"op": "add", "lv": 3.0, "lu": U.U(("k", "m", 1, 1)), "le": 0.1, "rv": 20.0, "ru": U.U(("c", "m", 1, 1)), "re": 5.0},
+    {"op": "sub", "lv": 3.0, "lu": U.U(("", "J", 1, 1)), "rv": 2.0, "ru": U.U(("", "N", 1, 1), ("c", "m", 1, 1)), "re": 0.5},
+    {"op": "add", "lv": [1.0, 2.0], "lu": U.U(("", "h", 1, 1)), "le": 0.1, "rv": 30.0, "ru": U.U(("", "min", 1, 1)), "re": 3.0},
+    # products / quotients / powers / constructors whose units cancel with a factor != 1
+    {"op": "div", "lv": 6.0, "lu": U.U(("k", "m", 1, 1)), "le": 0.3, "rv": 2.0, "ru": U.U(("", "m", 1, 1))},
+    {"op": "div", "lv": 6.0, "lu": U.U(("", "m", 1, 1)), "le": 0.3, "rv": 2.0, "ru": U.U(("m", "m", 1, 1)), "re": 0.1},
+    {"op": "mul", "lv": 5.0, "lu": U.U(("k", "Hz", 1, 1)), "le": 0.5, "rv": 2.0, "ru": U.U(("", "s", 1, 1)), "re": 0.2},
+    {"op": "pow_int", "lv": 2.0, "lu": U.U(("k", "m", 1, 1), ("", "m", -1, 1), ("", "%", 1, 1)), "le": 0.1, "p": [2, 1]},
+    {"op": "new", "lv": 4.0, "lu": U.U(("k", "m", 1, 1), ("", "m", -1, 1)), "le": 0.2},
+    {"op": "new", "lv": -4.0, "lu": U.U(("", "J", 1, 1), ("", "erg", -1, 1)), "le": 0.2},
+    # the same object on both sides
+    {"op": "mul", "lv": 12.0, "lu": U.U(("c", "m", 1, 1)), "le": 0.2, "same": True, "rv": 12.0, "ru": U.U(("c", "m", 1, 1)), "re": 0.2},
+    {"op": "div", "lv": 12.0, "lu": U.U(("c", "m", 1, 1)), "le": 0.2, "same": True, "rv": 12.0, "ru": U.U(("c", "m", 1, 1)), "re": 0.2},
+    {"op": "add", "lv": 12.0, "lu": U.U(("c", "m", 1, 1)), "le": 0.2, "same": True, "rv": 12.0, "ru": U.U(("c", "m", 1, 1)), "re": 0.2},
+]
+
+
 def qty_stream(ctx, count):
-    cases = []
-    while len(cases) < count:
+    cases = [dict(c, mode="dict") for c in QTY_CORPUS]
+    while len(cases) < count + len(QTY_CORPUS):
         c = U.gen_case(ctx.rng)
         if c.get("lu") is not None and c["op"] != "pow_pair" or True:
             if c.get("lu") is not None and c.get("le") is None:
@@ -351,12 +391,73 @@ def qty_stream(ctx, count):
         has_err = c.get("le") is not None or c.get("re") is not None
         ctx.case(json.dumps(c, sort_keys=True, default=str), has_err and U.nontrivial(c),
                  {"quantity_case": U.describe(c), "op": c["op"], "abse": None if imp == "err" else imp["e"]})
+        spec = ans["ok"]["spec"]
         if imp != "err":
+            name = "Quantity." + c["op"].split("_")[0]
+            what = "Quantity %s %s" % (c["op"], U.describe(c))
             rule = {"rule": "nonneg"} if has_err else {"rule": "exact"}
-            check_rule(ctx, "Quantity." + c["op"].split("_")[0], c, imp["e"], rule, "Quantity %s %s" % (c["op"], U.describe(c)))
+            bad = check_rule(ctx, name, c, imp["e"], rule, what)
+            if not bad and isinstance(spec, dict) and "err" in spec:
+                # the clause of the property on the error re-expressed in base dimensions
+                ctx.count("qty.rule." + spec["err"].get("rule", "?"))
+                bad = check_rule(ctx, name, c, U.base_err_of(imp, req["env"]), spec["err"],
+                                 what + " [absolute error in base dimensions]")
+            if not bad and c["op"] != "add" and c["op"] != "sub":
+                fold_keeps_relative(ctx, name, c, req, imp, what)
         d = U.compare_model(imp, mod, U.scale_for(c, req))
         if d:
             ctx.disagreement("qty", c, d)
+
+
+def fold_keeps_relative(ctx, name, c, req, imp, what):
+    """unit factors are exact positive numbers: the relative uncertainty of a product / quotient / power /
+    constructed quantity is the one of the same operation on the bare Magnitudes (no units, nothing folded)"""
+    from scinumtools.units import Magnitude
+    import numpy as np
+
+    def bare(st):
+        if "num" in st:
+            v = st["num"]
+            return np.array(v, dtype=float) if isinstance(v, list) else v
+        v, e = st["v"], st.get("e")
+        return Magnitude(list(v) if isinstance(v, list) else v,
+                         abse=(np.array(e, dtype=float) if isinstance(e, list) else e))
+    op = c["op"].split("_")[0]
+    try:
+        l = bare(req["l"])
+        r = l if c.get("same") else (bare(req["r"]) if "r" in req else None)
+        if op == "mul":
+            m = l * r
+        elif op == "div":
+            m = l / r
+        elif op == "neg":
+            m = -l
+        elif op == "pow":
+            n, d = c["p"]
+            m = l ** (int(n) if c["op"] == "pow_int" else n / d)
+        elif op == "new":
+            m = l
+        else:
+            return
+        mv, me = U.fl(m.value), U.fl(m.error)
+    except Exception:
+        return
+    if me is None or imp["e"] is None or not (U.finite(mv) and U.finite(me)):
+        if (me is None) != (imp["e"] is None) and U.finite(me):
+            ctx.violation("fold-relative:" + name, "%s: error %s, the same operation on the bare magnitudes gives %s" %
+                          (what, imp["e"], me), {"case": c, "impl": imp})
+        return
+    vs = mv if isinstance(mv, list) else [mv]
+    iv = imp["v"] if isinstance(imp["v"], list) else [imp["v"]]
+    if any(x == 0 for x in vs) or any(x == 0 for x in iv):
+        return
+    r0, r1 = rel(me, mv), rel(imp["e"], imp["v"])
+    ctx.count("qty.relative-checked")
+    if not U.close(r0, r1, None, 1e-7):
+        ctx.violation("fold-relative:" + name,
+                      "%s: relative uncertainty is %s, the same operation on the bare magnitudes gives %s "
+                      "(unit factors are exact, they must scale error and value alike)" % (what, r1, r0),
+                      {"case": c, "impl": imp, "bare": {"v": mv, "e": me}})
 
 
 def correspond(ctx: Ctx):
